@@ -63,24 +63,24 @@ func registerHarnessIntrinsics() {
 		"verifIteU8": func(e *Exec, a []Value, s *ssa.CallCommon) Value {
 			return e.tb.Ite(a[0].(*Term), a[1].(*Term), a[2].(*Term))
 		},
-		"verifStrEq":          hStrEq,
-		"verifBytesEq":        hBytesEq,
-		"verifPanics":         hPanics,
-		"verifBeginOp":        hBeginOp,
-		"verifEndOp":          hEndOp,
-		"verifProtect":        hProtect,
-		"verifHMACCount":      func(e *Exec, a []Value, s *ssa.CallCommon) Value { return e.c64(int64(len(e.hmacCalls))) },
-		"verifHMACAlg":        hHMACAlg,
-		"verifHMACKey":        func(e *Exec, a []Value, s *ssa.CallCommon) Value { return hHMACPart(e, a, "key") },
-		"verifHMACMsg":        func(e *Exec, a []Value, s *ssa.CallCommon) Value { return hHMACPart(e, a, "msg") },
-		"verifHMACDigest":     func(e *Exec, a []Value, s *ssa.CallCommon) Value { return hHMACPart(e, a, "digest") },
-		"verifHMACSums":       hHMACSums,
+		"verifStrEq":      hStrEq,
+		"verifBytesEq":    hBytesEq,
+		"verifPanics":     hPanics,
+		"verifBeginOp":    hBeginOp,
+		"verifEndOp":      hEndOp,
+		"verifProtect":    hProtect,
+		"verifHMACCount":  func(e *Exec, a []Value, s *ssa.CallCommon) Value { return e.c64(int64(len(e.hmacCalls))) },
+		"verifHMACAlg":    hHMACAlg,
+		"verifHMACKey":    func(e *Exec, a []Value, s *ssa.CallCommon) Value { return hHMACPart(e, a, "key") },
+		"verifHMACMsg":    func(e *Exec, a []Value, s *ssa.CallCommon) Value { return hHMACPart(e, a, "msg") },
+		"verifHMACDigest": func(e *Exec, a []Value, s *ssa.CallCommon) Value { return hHMACPart(e, a, "digest") },
+		"verifHMACSums":   hHMACSums,
 		"verifUseModelDigests": func(e *Exec, a []Value, s *ssa.CallCommon) Value {
 			e.opaque["modeldigests"] = true
 			return &TupleV{}
 		},
-		"verifSymbolic":       func(e *Exec, a []Value, s *ssa.CallCommon) Value { return e.tb.Bool(e.cfg.Concrete == nil) },
-		"verifMul128Le": hMul128Le,
+		"verifSymbolic":        func(e *Exec, a []Value, s *ssa.CallCommon) Value { return e.tb.Bool(e.cfg.Concrete == nil) },
+		"verifMul128Le":        hMul128Le,
 		"verifFrameViolations": hFrameViolations,
 		"verifPoolAdversary": func(e *Exec, a []Value, s *ssa.CallCommon) Value {
 			e.opaque["pooladv"] = a[0].(*Term).IsTrue()
@@ -97,9 +97,16 @@ func registerHarnessIntrinsics() {
 		},
 		"verifDependsOn": hDependsOn,
 		"verifUF":        hUF,
+		"verifTime":      hTime,
+		"verifTimeIn":    hTime,
+		"verifTimeAt":    hTime,
+		"verifPrefer": func(e *Exec, a []Value, s *ssa.CallCommon) Value {
+			e.prefers = append(e.prefers, a[0].(*Term))
+			return &TupleV{}
+		},
 		"verifAssertBytesEq": hAssertBytesEq,
-		"verifErrInfo":   hErrInfo,
-		"verifAliases":   hAliases,
+		"verifErrInfo":       hErrInfo,
+		"verifAliases":       hAliases,
 	}
 }
 
@@ -159,7 +166,7 @@ func hAssume(e *Exec, a []Value, s *ssa.CallCommon) Value {
 	if e.decPos >= len(e.decisions) && !e.feasible(c) {
 		panic(pathAbort{"infeasible", "assumption unsatisfiable"})
 	}
-	e.addPC(c)
+	e.addPCKind(c, 'a')
 	return &TupleV{}
 }
 
@@ -217,10 +224,30 @@ func (e *Exec) checkObligation(name string, c *Term) {
 	neg := e.tb.Not(c)
 	as := append(e.slicePC(neg), neg)
 	ob.Size = e.tb.And(as...).Size()
-	r := e.sol.Prove(e.tb, as, nil, e.cfg.ProveTimeout)
+	// stage 0: assumptions only (branch conditions are often irrelevant to arithmetic lemmas but
+	// share variables with them); sound because dropping conjuncts only weakens the hypothesis
+	var r CheckResult
+	as0 := append(e.sliceDirect(neg), neg)
+	if len(as0) < len(as) {
+		r = e.sol.Prove(e.tb, as0, nil, e.cfg.ProveTimeout/6)
+		if r.Status == "unsat" {
+			ob.Note = "proved from assumptions alone"
+		}
+	}
+	if r.Status != "unsat" {
+		r = e.sol.Prove(e.tb, as, nil, e.cfg.ProveTimeout)
+	}
 	if r.Status == "sat" {
 		// model over the whole path condition (the slice is independent of the rest)
 		full := e.sol.Prove(e.tb, e.pcWith(neg), e.wantTerms(), e.cfg.ProveTimeout)
+		if full.Status == "sat" && len(e.prefers) > 0 {
+			// witness-friendly model: soft constraints stated by the harness (e.g. no collisions of the
+			// uninterpreted code function) make the model reproducible with the real functions
+			pf := e.sol.Prove(e.tb, append(e.pcWith(neg), e.prefers...), e.wantTerms(), e.cfg.ProveTimeout)
+			if pf.Status == "sat" {
+				full = pf
+			}
+		}
 		if full.Status == "sat" {
 			r = full
 		} else {
@@ -240,7 +267,7 @@ func (e *Exec) checkObligation(name string, c *Term) {
 				ob.Note = "SOLVER DISAGREEMENT: " + r.Backend + " unsat, " + cr.Backend + " sat"
 			}
 		}
-		e.addPC(c)
+		e.addPCKind(c, 'p')
 	case "sat":
 		ob.Status = "violated"
 		ob.Model = e.namedModel(r.Model)
@@ -593,4 +620,68 @@ func hAssertBytesEq(e *Exec, a []Value, s *ssa.CallCommon) Value {
 		e.checkObligation(fmt.Sprintf("%s[%d]", name, i), e.tb.Eq(xs[i], ys[i]))
 	}
 	return &TupleV{}
+}
+
+// verifTime(name): an arbitrary time.Time satisfying package time's representation invariant.
+// Variables: <name>.sec (Unix seconds), .nsec, .mono, .monoread, .loc (0 UTC/nil, 1 Local, 2 other zone).
+func hTime(e *Exec, a []Value, s *ssa.CallCommon) Value {
+	tb := e.tb
+	name := e.mustConcreteString(a[0], "time name")
+	sec := e.freshVar(name+".sec", 64)
+	if len(a) > 2 {
+		// verifTimeAt: the Unix second is given by the caller (the variable is still consumed so
+		// that native and symbolic naming stay aligned)
+		sec = a[2].(*Term)
+	}
+	nsec := e.freshVar(name+".nsec", 64)
+	mono := e.freshVar(name+".mono", 64)
+	monoread := e.freshVar(name+".monoread", 64)
+	loc := e.freshVar(name+".loc", 64)
+	if e.cfg.Concrete == nil {
+		e.addPCKind(tb.Ult(nsec, e.c64(1000000000)), 'a')
+		e.addPCKind(tb.Ule(mono, e.c64(1)), 'a')
+		e.addPCKind(tb.Ule(loc, e.c64(2)), 'a')
+	}
+	isMono := tb.Eq(mono, e.c64(1))
+	// monotonic form needs the seconds since 1885 to fit 33 bits
+	wsec := tb.Add(sec, e.c64(2682288000))
+	if e.cfg.Concrete == nil {
+		e.addPCKind(tb.Implies(isMono, tb.And(tb.Sle(e.c64(0), wsec), tb.Slt(wsec, e.c64(1<<33)))), 'a')
+	}
+	wallMono := tb.Concat(tb.Const(1, 1), tb.Concat(tb.Extract(wsec, 32, 0), tb.Extract(nsec, 29, 0)))
+	wall := tb.Ite(isMono, wallMono, nsec)
+	ext := tb.Ite(isMono, monoread, tb.Add(sec, e.c64(62135596800)))
+	// location pointer: concrete per path
+	if len(a) > 1 {
+		if lc := a[1].(*Term); lc.IsConst() && int64(lc.val) >= 0 && e.cfg.Concrete == nil {
+			lv := lc.val
+			if lv >= 10 { // 10..12: wall-clock-only representation (no monotonic reading)
+				lv -= 10
+				e.addPC(tb.Eq(mono, e.c64(0)))
+				mono = e.c64(0)
+			}
+			e.addPC(tb.Eq(loc, e.c64(int64(lv))))
+		}
+	}
+	// the representation is chosen per path (keeps the terms free of if-then-else over bit layouts)
+	if e.cfg.Concrete == nil {
+		mono = e.c64(int64(e.concretize(mono, 0, 1, "time representation")))
+	}
+	isMono = tb.Eq(mono, e.c64(1))
+	wall = tb.Ite(isMono, wallMono, nsec)
+	ext = tb.Ite(isMono, monoread, tb.Add(sec, e.c64(62135596800)))
+	k := e.concretize(loc, 0, 2, "time location")
+	var lp Value = &PtrV{}
+	tp := e.prog.ImportedPackage("time")
+	if tp == nil {
+		panic(e.unsupported("package time not loaded"))
+	}
+	switch k {
+	case 1:
+		lp = &PtrV{c: e.globalCell(tp.Var("localLoc"))}
+	case 2:
+		lt := tp.Type("Location").Type()
+		lp = &PtrV{c: e.newCell(lt, e.newObj("nondet", "time.Location"), nil)}
+	}
+	return &StructV{F: []Value{wall, ext, lp}}
 }
